@@ -21,7 +21,7 @@ CHECKS = {
                       'head against the last observed target, one merge per target observation). Samples histories; not a proof.',
         'level_note': 'Trusts the SimGitHub/SimBatchService models (no branch protection; merge refused only for stale sha, '
                       'conflict, closed PR); <= 2 branches x 4 PRs, <= 8 developer actions per PR; liveness not asserted.',
-        'scenarios': [{'module': 'worlds.ci.merge', 'quick': 10000, 'thorough': 250000, 'wall_cap': {'quick': 240.0, 'thorough': 1500.0}}],
+        'scenarios': [{'module': 'worlds.ci.merge', 'quick': 10000, 'thorough': 70000, 'wall_cap': {'quick': 240.0, 'thorough': 1500.0}}],
         'expected_probes': ['merge_accepted', 'merge_refused_stale_head', 'push_to_pr_during_build',
                             'target_moved_during_build', 'label_added_after_green', 'approval_revoked_after_green',
                             'stale_batch_notification', 'merge_conflict', 'two_prs_green_same_time', 'graphql_paged',
